@@ -23,6 +23,7 @@ type Shape struct {
 	// AssumeLits constrains the symbolic literals (e.g. small ranges for loop bounds / indices).
 	AssumeLits func(c *gosym.Ctx)
 	Tag        string // known-finding class suggestion for shape-level defects
+	Concretize func(o *eqOutcome, m map[string]uint64) // fills stdin / pre-existing files of a counterexample
 }
 
 type eqOutcome struct {
@@ -40,12 +41,18 @@ type eqOutcome struct {
 	Funcs    int
 	SymVars  int
 	Syntactic bool // all obligations discharged without a solver call
+	More     []eqOutcome // further counterexamples on the same path (one per character class)
+	Sub      string      // character class of the data bytes
+	Data     string
+	Stdin    string
+	Pre      map[string]string
 }
 
 type eqOpts struct {
 	Target       string
 	CheckHazards bool
 	CompareFiles bool
+	ByCharClass  bool // enumerate counterexamples per character class of the symbolic data bytes v_*
 	Stub         oracle.ExtStub
 }
 
@@ -121,6 +128,23 @@ func bashEquiv(r *Run, c *gosym.Ctx, sh Shape, o eqOpts) (out eqOutcome) {
 		return
 	}
 	refOut := gosym.Concat(in.Out...)
+	mkOutcome := func(diff string, m map[string]uint64) eqOutcome {
+		x := eqOutcome{Shape: sh.Name, Kind: "diff", Diff: diff}
+		x.Src = concretizeSource(src, m)
+		x.Files = sh.Files
+		x.Expected = ModelStr(refOut, m)
+		x.ExpCode = int(in.Exit)
+		if o.CompareFiles {
+			x.ExpFiles = map[string]string{}
+			for p, v := range in.Files {
+				x.ExpFiles[p] = ModelStr(v, m)
+			}
+		}
+		if sh.Concretize != nil {
+			sh.Concretize(&x, m)
+		}
+		return x
+	}
 	finish := func(diff string, extra ...*sym.Term) bool {
 		res, m := c.Sat(extra...)
 		if res == sym.Unknown {
@@ -130,17 +154,87 @@ func bashEquiv(r *Run, c *gosym.Ctx, sh Shape, o eqOpts) (out eqOutcome) {
 		if res != sym.Sat {
 			return false
 		}
-		out.Kind, out.Diff = "diff", diff
-		out.Src = concretizeSource(src, m)
-		out.Files = sh.Files
-		out.Expected = ModelStr(refOut, m)
-		out.ExpCode = int(in.Exit)
-		if o.CompareFiles {
-			out.ExpFiles = map[string]string{}
-			for p, v := range in.Files {
-				out.ExpFiles[p] = ModelStr(v, m)
+		first := mkOutcome(diff, m)
+		if !o.ByCharClass {
+			more := out.More
+			out = first
+			out.More = more
+			return true
+		}
+		// enumerate the character classes of the data bytes for which the violation exists
+		var data []*sym.Term
+		for _, v := range c.B.Vars {
+			if v.W == 8 && strings.HasPrefix(v.Name, "v_") {
+				data = append(data, v)
 			}
 		}
+		B := c.B
+		const plainChars = "abcdefghijklmnopqrstuvwxyzABCDEFGHIJKLMNOPQRSTUVWXYZ0123456789"
+		inSet := func(d *sym.Term, chars string) *sym.Term {
+			var alts []*sym.Term
+			for i := 0; i < len(chars); i++ {
+				alts = append(alts, B.Eq(d, B.BV(uint64(chars[i]), 8)))
+			}
+			return B.Or(alts...)
+		}
+		witnesses := func(sub string, cond *sym.Term) bool {
+			found := false
+			exact := B.True
+			for k := 0; k < 3; k++ {
+				r2, m2 := c.Sat(append(append([]*sym.Term{}, extra...), cond, exact)...)
+				if r2 != sym.Sat {
+					break
+				}
+				found = true
+				var vals []byte
+				var same []*sym.Term
+				for _, d := range data {
+					vals = append(vals, byte(m2[d.Name]))
+					same = append(same, B.Eq(d, B.BV(m2[d.Name], 8)))
+				}
+				x := mkOutcome(diff, m2)
+				x.Sub = sub
+				x.Data = string(vals)
+				if sh.Concretize != nil {
+					sh.Concretize(&x, m2)
+				}
+				out.More = append(out.More, x)
+				exact = B.And(exact, B.Not(B.And(same...)))
+			}
+			return found
+		}
+		if len(data) == 0 {
+			out.More = append(out.More, first)
+		} else {
+			// per class: first values that consist of this class and ordinary characters only, then mixtures
+			for _, cl := range append(append([]charClass{}, charClasses...), charClass{"plain", ""}) {
+				var pure, some []*sym.Term
+				for _, d := range data {
+					pure = append(pure, inSet(d, cl.chars+plainChars))
+					if cl.chars != "" {
+						some = append(some, inSet(d, cl.chars))
+					}
+				}
+				cond := B.And(pure...)
+				if cl.chars != "" {
+					cond = B.And(cond, B.Or(some...))
+				}
+				witnesses(cl.name, cond)
+			}
+			// violations that need characters of two classes at once
+			mixed := B.True
+			for _, cl := range charClasses {
+				var pure []*sym.Term
+				for _, d := range data {
+					pure = append(pure, inSet(d, cl.chars+plainChars))
+				}
+				mixed = B.And(mixed, B.Not(B.And(pure...)))
+			}
+			witnesses("mixed-classes", mixed)
+		}
+		more := out.More
+		out = first
+		out.More = more
 		return true
 	}
 	if gp != nil {
@@ -167,14 +261,27 @@ func bashEquiv(r *Run, c *gosym.Ctx, sh Shape, o eqOpts) (out eqOutcome) {
 		}()
 		shOut, shStatus = shl.RunScript(script)
 	}()
+	var hazardAny *sym.Term
 	if o.CheckHazards {
+		var hs []*sym.Term
+		what := ""
 		for _, h := range shl.Hazards {
 			if h.Cond.IsFalse() {
 				continue
 			}
-			if finish("data byte is shell-active: "+h.What, h.Cond) {
-				out.Hazard = true
-				return
+			hs = append(hs, h.Cond)
+			if what == "" {
+				what = h.What
+			}
+		}
+		if len(hs) > 0 {
+			hazardAny = c.B.Or(hs...)
+			if !o.ByCharClass || shUnsup != "" {
+				if finish("data byte is shell-active: "+what, hazardAny) {
+					out.Hazard = true
+					return
+				}
+				hazardAny = nil
 			}
 		}
 	}
@@ -243,6 +350,27 @@ func bashEquiv(r *Run, c *gosym.Ctx, sh Shape, o eqOpts) (out eqOutcome) {
 		}
 	}
 	out.Syntactic = true
+	if o.ByCharClass {
+		// one violation condition: some data byte is shell-active, or an observable differs
+		viol := []*sym.Term{}
+		if hazardAny != nil {
+			viol = append(viol, hazardAny)
+		}
+		for _, x := range obs {
+			if !x.t.IsTrue() {
+				viol = append(viol, B.Not(x.t))
+			}
+		}
+		if len(viol) > 0 {
+			out.Syntactic = false
+			if finish("data is interpreted by the shell or an observable differs", B.Or(viol...)) {
+				return
+			}
+		}
+		out.Kind = "ok"
+		out.SymVars = len(c.B.Vars)
+		return
+	}
 	for _, x := range obs {
 		if x.t.IsTrue() {
 			continue
@@ -317,14 +445,20 @@ func confirmBash(r *Run, o eqOutcome, pre map[string]string, stdin string) (conf
 
 // handleEq processes a diff outcome: native confirmation, known-finding lookup, replay files.
 func (r *Run) handleEq(o eqOutcome, pre map[string]string, stdin string) {
+	if !r.handleEqTry(o, pre, stdin) {
+		r.Spurious(fmt.Sprintf("shape %s: candidate (%s) did not reproduce on bash; program:\n%s", o.Shape, o.Diff, o.Src))
+	}
+}
+
+// handleEqTry returns false when the candidate does not reproduce on the real bash.
+func (r *Run) handleEqTry(o eqOutcome, pre map[string]string, stdin string) bool {
 	confirmed, what := confirmBash(r, o, pre, stdin)
 	if !confirmed {
-		r.Spurious(fmt.Sprintf("shape %s: candidate (%s) did not reproduce on bash; program:\n%s", o.Shape, o.Diff, o.Src))
-		return
+		return false
 	}
 	if r.IsKnown(o.Class) {
 		r.HitKnown(o.Class, strings.TrimSpace(o.Src))
-		return
+		return true
 	}
 	files := map[string]string{
 		"main.tsh":     o.Src,
@@ -334,8 +468,15 @@ func (r *Run) handleEq(o eqOutcome, pre map[string]string, stdin string) {
 	for p, c := range o.Files {
 		files[p] = c
 	}
+	if stdin != "" {
+		files["stdin.txt"] = stdin
+	}
+	for p, c := range pre {
+		files["pre_"+strings.ReplaceAll(p, "/", "_")] = c
+	}
 	dir := r.WriteReplay(o.Class, files)
 	r.AddViolation(Violation{Class: o.Class, What: fmt.Sprintf("shape %s: %s | program: %s", o.Shape, what, strconv.Quote(o.Src)), Replay: dir})
+	return true
 }
 
 var stdCache map[string]string
@@ -350,4 +491,37 @@ func stdFiles() map[string]string {
 		}
 	}
 	return stdCache
+}
+
+type charClass struct{ name, chars string }
+
+var charClasses = []charClass{
+	{"dquote", "\""}, {"backslash", "\\"}, {"dollar", "$"}, {"backquote", "`"}, {"newline", "\n"}, {"tab", "\t"},
+	{"blank", " "}, {"glob", "*?["}, {"dash", "-"}, {"shellmeta", ";&|<>()'#~{}!=]"},
+}
+
+// charClassOf returns the first special class present in the data ("plain" when none is).
+func charClassOf(vals []byte) charClass {
+	for _, cl := range charClasses {
+		for _, b := range vals {
+			if strings.IndexByte(cl.chars, b) >= 0 {
+				return cl
+			}
+		}
+	}
+	return charClass{"plain", ""}
+}
+
+// classTerm: the data bytes fall into class cl (first special class present).
+func classTerm(c *gosym.Ctx, data []*sym.Term, cl charClass) *sym.Term {
+	if cl.chars == "" {
+		return c.B.True
+	}
+	var any []*sym.Term
+	for _, d := range data {
+		for i := 0; i < len(cl.chars); i++ {
+			any = append(any, c.B.Eq(d, c.B.BV(uint64(cl.chars[i]), 8)))
+		}
+	}
+	return c.B.Or(any...)
 }
